@@ -38,6 +38,7 @@ def wide_model(draw):
     ni = draw(st.integers(8, 24))
     names = draw(st.lists(st.sampled_from(G.SAFE_POOL), min_size=ns + np_ + ni, max_size=ns + np_ + ni, unique=True))
     sn, pn, inn = names[:ns], names[ns : ns + np_], names[ns + np_ :]
+    G.case_twins(draw, [sn, pn, inn], names)
     ncomp = draw(st.integers(1, 3))
     comps = [""] if ncomp == 1 else draw(st.lists(st.sampled_from(G.COMPS), min_size=ncomp, max_size=ncomp, unique=True))
 
